@@ -419,6 +419,78 @@ func calls(p *pkg, fd *ast.FuncDecl) []string {
 	return res
 }
 
+// skeleton lists, in source order, the control skeleton of fd: calls ("call:<fun>"), branch
+// statements ("continue", "break", "return", "goto", each followed by "label:<name>" when
+// labelled), loops ("for"), conditions ("if", "cond:<cond>") and selects with their cases ("select", "case:<comm>" / "default").
+// Function literals are not entered.
+func skeleton(p *pkg, fd *ast.FuncDecl) []string {
+	var res []string
+	if fd == nil {
+		return res
+	}
+	deferred := map[*ast.FuncLit]bool{}
+	ast.Inspect(fd.Body, func(n ast.Node) bool {
+		switch x := n.(type) {
+		case *ast.DeferStmt:
+			if fl, ok := x.Call.Fun.(*ast.FuncLit); ok {
+				deferred[fl] = true // the body of `defer func() {...}()` belongs to the function
+				res = append(res, "defer")
+			}
+		case *ast.FuncLit:
+			return deferred[x]
+		case *ast.IncDecStmt:
+			res = append(res, "incdec:"+exprStr(p.fset, x.X))
+		case *ast.CallExpr:
+			fn := exprStr(p.fset, x.Fun)
+			res = append(res, "call:"+fn)
+			if fn == "hkdf.New" {
+				for _, a := range x.Args {
+					res = append(res, "arg:"+exprStr(p.fset, a))
+				}
+			}
+		case *ast.BranchStmt:
+			res = append(res, strings.ToLower(x.Tok.String()))
+			if x.Label != nil {
+				res = append(res, "label:"+x.Label.Name)
+			}
+		case *ast.ReturnStmt:
+			res = append(res, "return")
+		case *ast.ForStmt:
+			res = append(res, "for")
+			if x.Cond != nil {
+				res = append(res, "forcond:"+exprStr(p.fset, x.Cond))
+			}
+			if x.Post != nil {
+				res = append(res, "forpost")
+			}
+		case *ast.RangeStmt:
+			res = append(res, "for")
+		case *ast.IfStmt:
+			res = append(res, "if", "cond:"+exprStr(p.fset, x.Cond))
+		case *ast.AssignStmt:
+			for _, l := range x.Lhs {
+				if _, ok := l.(*ast.SelectorExpr); ok {
+					res = append(res, "assign:"+exprStr(p.fset, l))
+				}
+			}
+		case *ast.SendStmt:
+			res = append(res, "send:"+exprStr(p.fset, x.Chan))
+		case *ast.LabeledStmt:
+			res = append(res, "labeldef:"+x.Label.Name)
+		case *ast.SelectStmt:
+			res = append(res, "select")
+		case *ast.CommClause:
+			if x.Comm == nil {
+				res = append(res, "default")
+			} else {
+				res = append(res, "case:"+commStr(p, x.Comm))
+			}
+		}
+		return true
+	})
+	return res
+}
+
 // typeCasesOf reports, for every call of `callee` inside fd, the type list of
 // the innermost enclosing type-switch case clause ("" when there is none).
 func typeCasesOf(p *pkg, fd *ast.FuncDecl, callee string) []string {
@@ -879,6 +951,12 @@ func main() {
 	o.f("def calls_queueStop : List String := %s\n", leanStrList(calls(g, g.anyFunc("queue", "stop"))))
 	o.f("def guarded_pongReset : List Bool := %s\n", leanBoolList(guardedCalls(g,
 		g.anyFunc("GoBackNConn", "sendPacketsForever"), "g.pongTicker.Reset", "!g.pongTicker.IsActive()")))
+	o.f("def skel_sendPacketsForever : List String := %s\n", leanStrList(skeleton(g, g.anyFunc("GoBackNConn", "sendPacketsForever"))))
+	o.f("def skel_receivePacketsForever : List String := %s\n", leanStrList(skeleton(g, g.anyFunc("GoBackNConn", "receivePacketsForever"))))
+	o.f("def skel_serverHandshake : List String := %s\n", leanStrList(skeleton(g, g.anyFunc("GoBackNConn", "serverHandshake"))))
+	o.f("def skel_clientHandshake : List String := %s\n", leanStrList(skeleton(g, g.anyFunc("GoBackNConn", "clientHandshake"))))
+	o.f("def skel_Send : List String := %s\n", leanStrList(skeleton(g, g.anyFunc("GoBackNConn", "Send"))))
+	o.f("def skel_Recv : List String := %s\n", leanStrList(skeleton(g, g.anyFunc("GoBackNConn", "Recv"))))
 	o.f("def typecases_resendReset_recvLoop : List String := %s\n", leanStrList(typeCasesOf(g,
 		g.anyFunc("GoBackNConn", "receivePacketsForever"), "g.resendTicker.Reset")))
 	o.f("def lock_tickerResetWithInterval : String := %s\n",
@@ -936,6 +1014,12 @@ func main() {
 		}
 		sort.Strings(opts)
 		o.f("def gbnOptions_mailbox : List String := %s\n", leanStrList(opts))
+	}
+
+	// --- control skeletons of the record layer
+	for _, fn := range [][2]string{{"cipherState", "Encrypt"}, {"cipherState", "Decrypt"}, {"cipherState", "rotateKey"},
+		{"cipherState", "InitializeKey"}, {"Machine", "ReadHeader"}, {"Machine", "ReadBody"}, {"Machine", "WriteMessage"}} {
+		o.f("def skel_%s_%s : List String := %s\n", fn[0], fn[1], leanStrList(skeleton(m, m.anyFunc(fn[0], fn[1]))))
 	}
 
 	o.f("\nend Lnc.Facts\n")
